@@ -21,10 +21,10 @@ def run(ctx):
     valcorr.check_val_correspondence(ctx, cases, "C16")
     n_inv = 0
     for c in cases:
-        rc, h, fc = c["cer"]
-        evalimpl.set_cer(rc=rc, hints=h, fc=fc, packages=dict(valcorr.PACKAGES))
+        valcorr.reset_cer(c)
         cache = c["cache"]
-        invalid = {x for x, m in cache.inv.items() if m}
+        # invalidity is structural (C06): some part's condition expression is structurally invalid
+        invalid = {x for x in cache.res if structurally_invalid(cache.res[x])}
         exprs_here = {x for n in c["lines"] for x in valcorr.all_exprs(n)}
         inv_here = sorted(invalid & exprs_here)
         if not inv_here:
@@ -46,12 +46,11 @@ def run(ctx):
         if len(rows) != len(rows2) or [r[0] for r in rows] != [r[0] for r in rows2]:
             ctx.fail(f"kann|{str(valcorr.describe(c))[:300]}", dict(valcorr.describe(c), kannified=sorted(subset)), f"same nodes reported: {[r[0] for r in rows2]}", f"{[r[0] for r in rows]}", "oracle: C16 same positions")
             continue
-        reasons = {cache.inv[x] for x in subset}
         for r1, r2 in zip(rows, rows2):
             if r1 == r2:
                 continue
-            # only the node that carried the invalid expression may differ: optional, reason as hint
-            if not (r1[1] == "IS_OPTIONAL" and r1[2] in reasons and r2[1].startswith("IS_OPTIONAL")):
+            # only the node that carried the invalid expression may differ: optional, a reason as hint
+            if not (r1[1] == "IS_OPTIONAL" and isinstance(r1[2], str) and r1[2] and r2[1].startswith("IS_OPTIONAL")):
                 ctx.fail(f"kann|{r1[0]}|{str(valcorr.describe(c))[:300]}", dict(valcorr.describe(c), kannified=sorted(subset), node=r1[0]), f"{r2}", f"{r1}", "oracle: every other node identical to the kannified AHB; the node itself optional with the reason as hint")
                 break
     ctx.coverage["distinct_nontrivial"] = n_inv
@@ -60,6 +59,21 @@ def run(ctx):
                             "other node; non-trivial = runs whose tree holds at least one invalid expression")
     ctx.sample({"lines": cases[0]["lines"], "soll": cases[0]["soll"]})
     return finish(ctx, assumptions=["as C13"])
+
+
+def structurally_invalid(res):
+    """the resolved AHB tree has a part whose condition expression is structurally invalid (and in the domain)"""
+    from lark import Tree
+    from vlib import exprs
+
+    if res[0] != "ok" or not isinstance(res[1], Tree) or res[1].data != "ahb_expression":
+        return False
+    for ch in res[1].children:
+        if len(ch.children) == 2 and isinstance(ch.children[1], Tree):
+            t = exprs.from_lark(ch.children[1])
+            if t is not None and exprs.dom(t) and not exprs.valid(t):
+                return True
+    return False
 
 
 def replay(path):
